@@ -870,6 +870,12 @@ class Interp:
 
     def _call(self, e: ast.Call, env: dict):
         f = e.func
+        if isinstance(f, ast.Call) and isinstance(f.func, ast.Name) and f.func.id == "type" and len(f.args) == 1:
+            # type(x)(...): an object of the same kind as x
+            proto = self.ev(f.args[0], env)
+            if isinstance(proto, SymObject) and hasattr(proto, "rebuild"):
+                return proto.rebuild([self.ev(a_, env) for a_ in e.args], {k_.arg: self.ev(k_.value, env) for k_ in e.keywords if k_.arg})
+            return Opaque("type(...)(...) of an object that is not symbolic")
         name = f.attr if isinstance(f, ast.Attribute) else f.id if isinstance(f, ast.Name) else ""
         is_np = isinstance(f, ast.Attribute) and isinstance(f.value, ast.Name) and f.value.id in ("np", "numpy", "math")
         if isinstance(f, ast.Attribute) and not is_np:
@@ -877,6 +883,15 @@ class Interp:
                 recv = self.ev(f.value, env)
             except (Unknown, NotPolynomial):
                 recv = None
+            if isinstance(recv, list) and name in ("append", "extend") and len(e.args) == 1:
+                item = self.ev(e.args[0], env)
+                if name == "append":
+                    recv.append(item)
+                    return None
+                if isinstance(item, (list, tuple)):
+                    recv.extend(item)
+                    return None
+                return Opaque("extend with something that is not a sequence")
             if isinstance(recv, TensorSym) and name in self.hooks:
                 return self.hooks[name]([recv] + [self.ev(a_, env) for a_ in e.args], {k_.arg: self.ev(k_.value, env) for k_ in e.keywords if k_.arg})
             if isinstance(recv, ObjSym):
@@ -1621,6 +1636,13 @@ class Interp:
                     buf.set(self.index(t.slice, env), self.num(v))
                 except (Unknown, NotPolynomial) as ex:
                     env[t.value.id] = Opaque(f"item assignment not read: {ex}")
+            return
+        if isinstance(t, ast.Attribute) and isinstance(t.value, ast.Name) and isinstance(env.get(t.value.id), SymObject):
+            obj_ = env[t.value.id]
+            if isinstance(obj_, ObjSym):
+                obj_._attrs[t.attr] = v
+            else:
+                obj_.__dict__[t.attr] = v
             return
         # any other target (attribute of a table, nested subscripts): the tables it mentions are no longer known
         for x in ast.walk(t):
@@ -2949,4 +2971,199 @@ def rule_metric_constructions(run: Run, prog: Program) -> int:
         run.add("E19.metric", fn_mir.short, label, PROVEN if ok else VIOLATION,
                 "the constructed point is the Cartesian reflection for every representative of point and line (a complex factor from the circular points cancels)" if ok else
                 "the constructed point is not the Cartesian reflection of the point at the line", fn_mir.loc)
+    return n_ob
+
+
+# ---------------------------------------------------------------------------------------------- the action of a transformation, as values (C07, C06)
+def rule_action_values(run: Run, prog: Program, part: str = "incidence") -> int:
+    """part 'incidence' (C07): images of incident objects are incident, join commutes with the action, a point on a conic maps onto the image conic.
+    part 'inverse' (C06): applying t and then the matrix that inverse() builds (up to its scalar det) gives back a multiple of x."""
+    if part == "incidence":
+        run.rule("E19.act", "Tensor.__apply__ interpreted on symbolic points, lines, planes and conics under a symbolic matrix T (the inverse is read as the adjugate, "
+                            "which differs from it by the scalar det T): (t*l).(t*p) = det T (l.p), t*join(p, q) ~ join(t*p, t*q), t*meet(l, m) ~ meet(t*l, t*m), and "
+                            "(t*p)^T (t*Q) (t*p) = det T^2 (p^T Q p) for a conic and its dual - polynomial identities in the entries of T")
+    else:
+        run.rule("E19.act", "the inverse undoes the action: with the inverse read as the adjugate of the symbolic matrix T, inverse applied to t*x is a non-zero "
+                            "polynomial multiple of x for points, lines and planes")
+    tcls = prog.find_cls("Tensor")
+    ap = prog.lookup(tcls, "__apply__") if tcls else None
+    duality = prog.find_func("_join_meet_duality")
+    if ap is None or duality is None:
+        run.add("E19.act", "Tensor.__apply__", "action", UNDECIDED, "anchors not found", "")
+        return 0
+    ap = prog.body_of(ap)
+    duality = prog.body_of(duality)
+    dparams = duality.node.args
+
+    def hooks_for(it: "Interp") -> dict:
+        def dual_call(args_, kw_):
+            sub_it = Interp(prog, None, {})
+            sub_it.generic = True
+            sub_it.hooks = hooks_for(sub_it)
+            env = {dparams.vararg.arg: list(args_)}
+            for kwarg, d in zip(dparams.kwonlyargs, dparams.kw_defaults):
+                if d is not None:
+                    env[kwarg.arg] = sub_it.ev(d, {})
+            try:
+                sub_it.block(duality.node.body, env)
+            except _Done as d:
+                if isinstance(d.matrix, TensorSym):
+                    return d.matrix
+                raise Unknown("join / meet does not return a tensor") from None
+            except _Raise as r:
+                raise RaisedIn(r.name) from None
+            raise Unknown("join / meet returns nothing")
+        return {"LeviCivitaTensor": lambda a_, k_: levi_civita(a_[0], a_[1] if len(a_) > 1 else k_.get("covariant", True))
+                if a_ and isinstance(a_[0], int) and isinstance(a_[1] if len(a_) > 1 else k_.get("covariant", True), bool) else Opaque("eps"),
+                "TensorDiagram": lambda a_, k_: SymDiagram([tuple(x) for x in a_]) if all(isinstance(x, (list, tuple)) and len(x) == 2 for x in a_) else Opaque("diagram"),
+                "from_tensor": lambda a_, k_: a_[-1], "_divide_by_power_of_two": lambda a_, k_: a_[0], "join": dual_call, "meet": dual_call}
+
+    class TransSym(TensorSym):
+        def __init__(self, table: Table):
+            super().__init__(table, 1, 1, {"Tensor", "TransformationTensor", "Transformation", "ProjectiveTensor"})
+
+        def copy(self):
+            return TransSym(self.array)
+
+        def rebuild(self, args_, kw_):
+            return TransSym(args_[0]) if args_ and isinstance(args_[0], Table) and len(args_[0].shape) == 2 else Opaque("transformation")
+
+        def inverse(self):
+            # TransformationTensor.inverse is interpreted from the source; `inv` is read as the adjugate (the inverse up to the scalar det T,
+            # which the projective statements do not see; that the closed forms of inv are adjugate / det is decided under C20)
+            tt = prog.find_cls("TransformationTensor")
+            m_ = prog.lookup(tt, "inverse") if tt else None
+            if m_ is None:
+                raise Unknown("TransformationTensor.inverse not found")
+            it_ = Interp(prog, None, {})
+            it_.generic = True
+            it_.hooks = {**hooks_for(it_), "inv": lambda a_, k_: _adjugate_table(a_[0]) if a_ and isinstance(a_[0], Table) else Opaque("inv")}
+            res_ = it_.run_method(m_, self, [], {})
+            if not isinstance(res_, TransSym):
+                raise Unknown(f"inverse() does not return a transformation ({getattr(res_, 'why', type(res_).__name__)[:50]})")
+            return res_
+
+    def apply(x: TensorSym, t: TransSym) -> TensorSym:
+        it = Interp(prog, None, {})
+        it.generic = True
+        it.hooks = hooks_for(it)
+        res = it.run_method(ap, x, [t], {})
+        if not isinstance(res, TensorSym) or not isinstance(res.array, Table):
+            raise Unknown(f"the action does not return a tensor ({getattr(res, 'why', type(res).__name__)[:60]})")
+        return res
+
+    def dual(args: list) -> TensorSym:
+        it = Interp(prog, None, {})
+        it.generic = True
+        return hooks_for(it)["join"](args, {})
+
+    def vec(name: str, n: int, point: bool) -> TensorSym:
+        return TensorSym(Table((n,), {(i,): LP.sym(f"{name}{i}") for i in range(n)}), 1 if point else 0, 0 if point else 1,
+                         {"PointTensor", "Point", "Tensor"} if point else {"SubspaceTensor", "Tensor", "LineTensor" if n == 3 else "PlaneTensor"})
+
+    def dot(a: TensorSym, b: TensorSym) -> LP:
+        return sum((a.array.data[(i,)] * b.array.data[(i,)] for i in range(a.array.shape[0])), LP())
+
+    def prop(a: Table, b: Table) -> bool:
+        keys = sorted(a.data)
+        if a.shape == b.shape and max(len(v.t) for v in a.data.values()) * max(len(v.t) for v in b.data.values()) > 400000:
+            raise Unknown("the polynomials are too large to compare")
+        return a.shape == b.shape and not all(a.data[k].is_zero() for k in keys) and all(
+            (a.data[k1] * b.data[k2] - a.data[k2] * b.data[k1]).is_zero() for i_, k1 in enumerate(keys) for k2 in keys[i_ + 1:])
+
+    # Every identity is first evaluated at one integer point (the same interpretation on constant tables): a polynomial identity that fails at a
+    # point is not an identity, so a failure there is already the VIOLATION, at no symbolic cost; PROVEN needs the symbolic expansion.
+    _READ = (Unknown, NotPolynomial, RecursionError, IndexError, KeyError, TypeError, ValueError, AttributeError, ZeroDivisionError)
+    _ints = {}
+
+    def mk_sym(numeric: bool):
+        def sym(name: str) -> LP:
+            if not numeric:
+                return LP.sym(name)
+            if name not in _ints:
+                h = 0
+                for ch in name:
+                    h = (h * 131 + ord(ch)) % 1000003
+                _ints[name] = Fraction(h % 19 - 9 or 11)  # a fixed point: small non-zero integers, a function of the name only
+            return LP.const(_ints[name])
+        return sym
+
+    def judge(label: str, compute, good: str, bad: str, n_: int) -> None:
+        try:
+            if compute(mk_sym(True), n_) is False:
+                run.add("E19.act", ap.short, label, VIOLATION, bad + " (already at an integer point)", loc)
+                return
+            ok = compute(mk_sym(False), n_)
+            run.add("E19.act", ap.short, label, PROVEN if ok else VIOLATION, good if ok else bad, loc)
+        except _READ as ex:
+            run.add("E19.act", ap.short, label, UNDECIDED, f"not read: {type(ex).__name__}: {str(ex)[:100]}", loc)
+
+    def vec_(sym, name: str, n_: int, point: bool) -> TensorSym:
+        return TensorSym(Table((n_,), {(i,): sym(f"{name}{i}") for i in range(n_)}), 1 if point else 0, 0 if point else 1,
+                         {"PointTensor", "Point", "Tensor"} if point else {"SubspaceTensor", "Tensor", "LineTensor" if n_ == 3 else "PlaneTensor"})
+
+    def trans_(sym, n_: int):
+        tm_ = Table.full((n_, n_), lambda idx: sym(f"t{idx[0]}{idx[1]}"))
+        return TransSym(tm_), _det_table(tm_)
+
+    def c_incidence(sym, n_):
+        t, det_t = trans_(sym, n_)
+        p_, h_ = vec_(sym, "p", n_, True), vec_(sym, "h", n_, False)
+        tp, th = apply(p_, t), apply(h_, t)
+        return tp.tensor_shape == (1, 0) and th.tensor_shape == (0, 1) and (dot(th, tp) - det_t * dot(h_, p_)).is_zero()
+
+    def c_commute(point: bool):
+        def compute(sym, n_):
+            t, _ = trans_(sym, n_)
+            a_, b_ = vec_(sym, "a", n_, point), vec_(sym, "b", n_, point)
+            left = apply(dual([a_, b_]), t)
+            right = dual([apply(a_, t), apply(b_, t)])
+            return prop(left.array, right.array)
+        return compute
+
+    def c_conic(is_dual: bool):
+        def compute(sym, n_):
+            t, det_t = trans_(sym, n_)
+            q = Table.full((n_, n_), lambda idx: sym(f"q{min(idx)}{max(idx)}"))
+            conic = TensorSym(q, 2 if is_dual else 0, 0 if is_dual else 2, {"Tensor", "QuadricTensor"})
+            x_ = vec_(sym, "l" if is_dual else "p", n_, not is_dual)
+            tq, tx = apply(conic, t), apply(x_, t)
+
+            def form(m_: Table, v_: Table) -> LP:
+                return sum((v_.data[(i,)] * m_.data[(i, j)] * v_.data[(j,)] for i in range(n_) for j in range(n_)), LP())
+            return (form(tq.array, tx.array) - det_t * det_t * form(q, x_.array)).is_zero()
+        return compute
+
+    def c_inverse(point: bool):
+        def compute(sym, n_):
+            t, _ = trans_(sym, n_)
+            x_ = vec_(sym, "p" if point else "h", n_, point)
+            x0 = x_.array  # (an action that writes into its receiver is C06's aliasing clause, E6.K4: the comparison here is with the coordinates x had)
+            back = apply(apply(x_, t), t.inverse())
+            # a point comes back as det T x, a hyperplane as det T^(n-1) x (the adjugate of the adjugate): a non-zero polynomial multiple in both cases
+            return prop(back.array, x0)
+        return compute
+
+    n_ob = 0
+    loc = ap.loc
+    for n in (3, 4):
+        space = "the plane" if n == 3 else "3-space"
+        if part == "incidence":
+            n_ob += 1
+            judge(f"a point and a {'line' if n == 3 else 'plane'} of {space}", c_incidence,
+                  "(t*h).(t*p) = det T (h.p): the image of the point lies on the image of the hyperplane exactly when the point lies on the hyperplane",
+                  "(t*h).(t*p) is not det T (h.p): incidence is not preserved", n)
+            if n == 3:
+                for label, point in (("t * join(p, q) and join(t * p, t * q) in the plane", True), ("t * meet(l, m) and meet(t * l, t * m) in the plane", False)):
+                    n_ob += 1
+                    judge(label, c_commute(point), "both sides are multiples of each other", "the two sides are not multiples of each other", 3)
+                for label, is_dual in (("a point on a conic", False), ("a line tangent to a conic, through the dual conic", True)):
+                    n_ob += 1
+                    judge(label, c_conic(is_dual), "(t*x)^T (t*Q) (t*x) = det T^2 (x^T Q x)",
+                          "(t*x)^T (t*Q) (t*x) is not det T^2 (x^T Q x): the image does not lie on the image conic", 3)
+        else:
+            for label, point in ((f"a point of {space}", True), (f"a {'line' if n == 3 else 'plane'} of {space}", False)):
+                n_ob += 1
+                judge(label, c_inverse(point), "the matrix of inverse() applied to t*x is a non-zero polynomial multiple of x",
+                      "the matrix of inverse() applied to t*x is not a multiple of x: the inverse does not undo the action", n)
     return n_ob
